@@ -91,11 +91,14 @@ def main():
             return os.path.join(d, f'f{f}.gvf')
 
         def write(f):
-            md = GVFMetadata(parser='parseVEP', source=f'src{f}', chrom='Gene ID')
+            uni = sc.get('unicode', 0)
+            md = GVFMetadata(parser='parseVEP', source=f'src{f}', chrom='Gene ID',
+                             genome_fasta='/home/Jos\u00e9 N\u00fa\u00f1ez/gen\u00f6me.fasta' if uni else None)
             lines = md.to_strings() + ['#CHROM\tPOS\tID\tREF\tALT\tQUAL\tFILTER\tINFO']
             for k, (tx, rid) in enumerate(content[f]):
-                lines.append(f"G{tx}\t{10 + k}\tSNV-{10 + k}-A-T-{rid}\tA\tT\t.\t.\tTRANSCRIPT_ID={tx};GENE_SYMBOL=S;GENOMIC_POSITION=chr1:{k}")
-            open(path(f), 'w').write('\n'.join(lines) + '\n')
+                sym = 'S\u00e9\u00df' if uni == 2 and k % 2 == 0 else 'S'
+                lines.append(f"G{tx}\t{10 + k}\tSNV-{10 + k}-A-T-{rid}\tA\tT\t.\t.\tTRANSCRIPT_ID={tx};GENE_SYMBOL={sym};GENOMIC_POSITION=chr1:{k}")
+            open(path(f), 'w', encoding='utf-8').write('\n'.join(lines) + '\n')
         try:
             for op in sc['ops']:
                 if op['op'] == 'append':
